@@ -217,6 +217,8 @@ class Interp:
             return cur
         if k == 'decl':
             for v in s['vars']:
+                if 'id' not in v:
+                    continue
                 if 'n' in v:
                     self.names[v['id']] = v['n']
                 init = v.get('init')
